@@ -3,6 +3,8 @@ use crate::common::*;
 use crate::pairhist::*;
 
 pub fn run(args: &Args) {
+    // replay of a recorded pair history (router / pure cases are re-run by the generators with the recorded seed)
+    if let Some(f) = &args.replay { std::process::exit(replay_file("C14", f, &format!("{}/scratch", args.out))); }
     let mut out = Out::new(&args.out);
     out.rule = "pair: histories on a real constant-product pair where every swap is preceded by the Simulation query in the same state (pending protocol fees non-zero after the first swaps); \
                 router: factory + 3 pairs over assets A,B,C + router, 1-3 hop chains incl. routes revisiting a pair, donations to the router, native and cw20 first offers; \
@@ -26,5 +28,8 @@ pub fn run(args: &Args) {
         let len = 8 + rng.below(9) as usize;
         crate::vault_hist::run_history(&mut out, "C14", "vault", &mut rng, crate::vault_hist::Mix::SharePrice, cw20, fees, funds, crate::vault_hist::Source::Gen(len));
     }
+    // stableswap pair and three-asset pool: Simulation issued right before every swap of their pool-history streams
+    crate::c03::histories(&mut out, &mut rng, (args.n / 3).max(20));
+    crate::c04_pool::pool_histories(&mut out, &mut rng, (args.n / 3).max(20));
     out.finish();
 }
